@@ -720,3 +720,41 @@ func boolLeaves(v ssa.Value) []ssa.Value {
 	walk(v, 0)
 	return out
 }
+
+// errEdgeOf: the CFG edge(s) taken when the error result of this very call is non-nil.
+func errEdgeOf(in ssa.Instruction) edgePred {
+	call, ok := in.(*ssa.Call)
+	if !ok {
+		return nil
+	}
+	type e struct {
+		b    *ssa.BasicBlock
+		succ int
+	}
+	var edges []e
+	for _, ev := range errResults(call) {
+		for _, r := range *ev.Referrers() {
+			bo, ok := r.(*ssa.BinOp)
+			if !ok || (bo.Op != token.NEQ && bo.Op != token.EQL) {
+				continue
+			}
+			for _, rr := range *bo.Referrers() {
+				if ifi, ok := rr.(*ssa.If); ok {
+					succ := 0
+					if bo.Op == token.EQL {
+						succ = 1
+					}
+					edges = append(edges, e{ifi.Block(), succ})
+				}
+			}
+		}
+	}
+	return func(b *ssa.BasicBlock, succ int) bool {
+		for _, x := range edges {
+			if x.b == b && x.succ == succ {
+				return true
+			}
+		}
+		return false
+	}
+}
